@@ -5,6 +5,7 @@ import (
 	"go/ast"
 	"go/token"
 	"go/types"
+	"os"
 	"sort"
 	"strings"
 )
@@ -304,6 +305,14 @@ func c09r4(p *Program, r *Report) {
 	tr.noAuto = func(string) bool { return true }
 	var single, composite []*pathState
 	pooled := ""
+	ki := "routingKeyInfo"
+	if po := paramObj(info, fi.Decl.Type, 0); po != nil {
+		ki = po.Name()
+	}
+	vals := "values"
+	if po := paramObj(info, fi.Decl.Type, 1); po != nil {
+		vals = po.Name()
+	}
 	for _, st := range tr.run(fi, 4) {
 		for _, it := range flat(st.trace) {
 			walk := []TraceItem{it}
@@ -316,7 +325,17 @@ func c09r4(p *Program, r *Report) {
 				}
 			}
 		}
-		if st.done != "return" || st.retStmt == nil || len(st.retStmt.Results) != 2 || !isNil(info, st.retStmt.Results[1]) || isNil(info, st.retStmt.Results[0]) {
+		if st.done != "return" || st.retStmt == nil {
+			continue
+		}
+		results := st.retStmt.Results
+		if len(results) == 1 {
+			// `return helper(...)`: the results are the helper's
+			if c, isCall := ast.Unparen(results[0]).(*ast.CallExpr); isCall && tr.inline[calleeName(info, c)] && len(st.retExprs) == 2 {
+				results = st.retExprs
+			}
+		}
+		if len(results) != 2 || !isNil(info, results[1]) || isNil(info, results[0]) {
 			continue // error / nil-key paths
 		}
 		isSingle, known := false, false
@@ -340,13 +359,25 @@ func c09r4(p *Program, r *Report) {
 	}
 	retIs := func(st *pathState, dst string) bool {
 		res := ast.Unparen(st.retStmt.Results[0])
+		if c, isCall := res.(*ast.CallExpr); isCall && dst != "" && st.retName == dst {
+			// `return helper(...)`: the helper returned the variable the encoding was bound to
+			if fn := calleeOf(info, c); fn != nil && tr.inline[calleeName(info, c)] {
+				return true
+			}
+		}
 		return dst != "" && exprStr(res) == dst
 	}
 	// single column: the bare encoding of values[indexes[0]] with types[0]
 	okSingle := len(single) > 0
 	for _, st := range single {
 		ft := flat(st.trace)
-		if len(ft) != 1 || ft[0].Prim != "marshal" || len(ft[0].Args) != 2 || ft[0].Args[0] != "routingKeyInfo.types[0]" || ft[0].Args[1] != "values[routingKeyInfo.indexes[0]]" || !retIs(st, ft[0].Dst) {
+		if os.Getenv("DBGC09") != "" {
+			fmt.Fprintln(os.Stderr, "C09.R4 single:", traceStr(ft), "ret:", exprStr(st.retStmt.Results[0]), "retName:", st.retName)
+			for _, it := range ft {
+				fmt.Fprintln(os.Stderr, "   ", it.Prim, it.Args, "dst="+it.Dst)
+			}
+		}
+		if len(ft) != 1 || ft[0].Prim != "marshal" || len(ft[0].Args) != 2 || ft[0].Args[0] != ki+".types[0]" || ft[0].Args[1] != vals+"["+ki+".indexes[0]]" || !retIs(st, ft[0].Dst) {
 			okSingle = false
 		}
 	}
@@ -375,8 +406,8 @@ func c09r4(p *Program, r *Report) {
 			continue
 		}
 		key := ""
-		if strings.HasPrefix(loop.Arg, "range routingKeyInfo.indexes key ") {
-			key = strings.TrimPrefix(loop.Arg, "range routingKeyInfo.indexes key ")
+		if strings.HasPrefix(loop.Arg, "range "+ki+".indexes key ") {
+			key = strings.TrimPrefix(loop.Arg, "range "+ki+".indexes key ")
 		}
 		if key == "" {
 			okOrder = false
@@ -387,13 +418,52 @@ func c09r4(p *Program, r *Report) {
 			seq = append(seq, it.Prim)
 		}
 		gotFrame = strings.Join(seq, " ")
+		if os.Getenv("DBGC09") != "" {
+			fmt.Fprintln(os.Stderr, "C09.R4 composite:", traceStr(ft), "loop:", loop.Arg)
+			for _, it := range body {
+				fmt.Fprintln(os.Stderr, "   ", it.Prim, it.Args, "dst="+it.Dst, "recv="+it.Recv)
+			}
+		}
+		if strings.Join(seq, " ") == "marshal write write writebyte" {
+			// the length prefix is written as a literal of shifted bytes
+			m, w1, w2, wb := body[0], body[1], body[2], body[3]
+			gotPair = strings.Join(m.Args, ", ")
+			if len(m.Args) != 2 || m.Args[0] != ki+".types["+key+"]" || m.Args[1] != vals+"["+ki+".indexes["+key+"]]" {
+				okPair = false
+			}
+			winfo := w1.Fn.Pkg.TypesInfo
+			enc, isEnc := encodingOf(winfo, nil, w1.Call.Args[0])
+			lenOf := ""
+			if isEnc {
+				lenOf = enc.Value
+				if id := identNamed(w1.Fn, enc.Value); id != nil {
+					if d := localDef(winfo, w1.Fn, id); d != nil {
+						lenOf = stripConv(winfo, d)
+					}
+				}
+			}
+			if !isEnc || !enc.BigEndian || lenOf != "len("+m.Dst+")" || w2.Args[0] != m.Dst || !wb.HasVal || wb.Val != 0 || w1.Recv != w2.Recv || w2.Recv != wb.Recv {
+				okFrame = false
+				gotFrame = fmt.Sprintf("write(%s) write(%s) writebyte(%s)", w1.Args[0], w2.Args[0], wb.Arg)
+			}
+			if isEnc {
+				gotLen = int64(enc.Width)
+			}
+			if gotLen != 2 {
+				okLen = false
+			}
+			if !c09FreshBuffer(fi, info, st, w1.Recv, after, retIs) {
+				okFresh = false
+			}
+			continue
+		}
 		if strings.Join(seq, " ") != "marshal put16be write write writebyte" {
 			okFrame = false
 			continue
 		}
 		m, put, w1, w2, wb := body[0], body[1], body[2], body[3], body[4]
 		gotPair = strings.Join(m.Args, ", ")
-		if len(m.Args) != 2 || m.Args[0] != "routingKeyInfo.types["+key+"]" || m.Args[1] != "values[routingKeyInfo.indexes["+key+"]]" {
+		if len(m.Args) != 2 || m.Args[0] != ki+".types["+key+"]" || m.Args[1] != vals+"["+ki+".indexes["+key+"]]" {
 			okPair = false
 		}
 		lb := strings.TrimSuffix(put.Args[0], "[:]")
@@ -405,27 +475,7 @@ func c09r4(p *Program, r *Report) {
 		if gotLen != 2 {
 			okLen = false
 		}
-		// the returned bytes are those of the buffer written, which this call created
-		bufRecv := w1.Recv
-		fresh := false
-		if len(after) == 1 && after[0].Prim == "bytes" && after[0].Recv == bufRecv && (retIs(st, after[0].Dst) || posWithin(st.retStmt, after[0].Pos)) {
-			if id := identNamed(fi, bufRecv); id != nil {
-				if d := localDef(info, fi, id); d != nil {
-					switch v := ast.Unparen(d).(type) {
-					case *ast.CallExpr:
-						n := calleeName(info, v)
-						fresh = n == "bytes.NewBuffer" || n == "builtin.new" || n == "bytes.NewBufferString"
-					case *ast.UnaryExpr:
-						_, fresh = ast.Unparen(v.X).(*ast.CompositeLit)
-					case *ast.CompositeLit:
-						fresh = true
-					}
-				} else if declaredZero(info, fi, id) {
-					fresh = true
-				}
-			}
-		}
-		if !fresh {
+		if !c09FreshBuffer(fi, info, st, w1.Recv, after, retIs) {
 			okFresh = false
 		}
 	}
@@ -435,6 +485,29 @@ func c09r4(p *Program, r *Report) {
 		"a component is framed as `"+gotFrame+"`; Cassandra's composite key is [2-byte big-endian length][value][0x00] per component")
 	r.Check(okLen, fi.Decl, "createRoutingKey length prefix buffer is exactly 2 bytes", fmt.Sprint(gotLen), fmt.Sprintf("the length prefix written per component is %d bytes long, Cassandra's composite format has a 2-byte length", gotLen))
 	r.Check(okFresh && pooled == "", fi.Decl, "createRoutingKey returns storage allocated by this call", "buffer created here, never pooled or reset", "the routing key is returned from a buffer that is pooled, reset or not created by this call"+ifs(pooled != "", " ("+pooled+")", "")+": the next routing key overwrites it while the first is still being hashed")
+}
+
+// c09FreshBuffer: the returned bytes are those of the buffer written, which this call created.
+func c09FreshBuffer(fi *FuncInfo, info *types.Info, st *pathState, bufRecv string, after []TraceItem, retIs func(*pathState, string) bool) bool {
+	fresh := false
+	if len(after) == 1 && after[0].Prim == "bytes" && after[0].Recv == bufRecv && (retIs(st, after[0].Dst) || posWithin(st.retStmt, after[0].Pos)) {
+		if id := identNamed(fi, bufRecv); id != nil {
+			if d := localDef(info, fi, id); d != nil {
+				switch v := ast.Unparen(d).(type) {
+				case *ast.CallExpr:
+					n := calleeName(info, v)
+					fresh = n == "bytes.NewBuffer" || n == "builtin.new" || n == "bytes.NewBufferString"
+				case *ast.UnaryExpr:
+					_, fresh = ast.Unparen(v.X).(*ast.CompositeLit)
+				case *ast.CompositeLit:
+					fresh = true
+				}
+			} else if declaredZero(info, fi, id) {
+				fresh = true
+			}
+		}
+	}
+	return fresh
 }
 
 // identNamed finds a use of the local variable called name in fi.
@@ -601,9 +674,21 @@ func c09r5(p *Program, r *Report) {
 			continue
 		}
 		ok := false
+		pinfo := fi.Pkg.TypesInfo
+		strParam := paramObj(pinfo, fi.Decl.Type, 0)
 		for _, c := range callsIn(fi.Decl.Body) {
-			if exprStr(c) == want {
-				ok = true
+			switch calleeName(pinfo, c) {
+			case "strconv.ParseInt":
+				if strings.HasPrefix(want, "strconv.ParseInt") && len(c.Args) == 3 && isIdentOf(pinfo, c.Args[0], strParam) {
+					b, _ := constInt(pinfo, c.Args[1])
+					w, _ := constInt(pinfo, c.Args[2])
+					ok = b == 10 && w == 64
+				}
+			case "big.(*Int).SetString":
+				if strings.Contains(want, "SetString") && len(c.Args) == 2 && isIdentOf(pinfo, c.Args[0], strParam) {
+					b, _ := constInt(pinfo, c.Args[1])
+					ok = b == 10
+				}
 			}
 		}
 		r.Check(ok, fi.Decl, name+" parses a base-10 integer of the token's width", want, name+" does not parse the token string as "+want)
